@@ -72,3 +72,46 @@ Definition size_seen_ok (arg : str) (f : mailfacts) : bool :=
     | None => true
     end
   else true.
+
+(** ** An independent reading of a plain MAIL argument (C05 / C06)
+    "a sender is refused exactly when its domain matches a reject-origin pattern", "messages within the limit are
+    accepted": a MAIL command of the plainest shape must not be refused for its syntax.  The shape, read without the
+    patterns: FROM: (any letter case), blanks, '<', an address of letters, digits and ._+- around one '@' (or nothing),
+    '>', then parameters KEY=VALUE of letters and digits (or AUTH=<>), each behind one blank. *)
+Definition plain_local (c : N) : bool := is_alpha c || is_digit c || (c =? 46) || (c =? 95) || (c =? 43) || (c =? 45).
+Definition plain_dom (c : N) : bool := is_alpha c || is_digit c || (c =? 46) || (c =? 45).
+Definition alnum (c : N) : bool := is_alpha c || is_digit c.
+Fixpoint drop_blanks (s : str) : str := match s with 32 :: r => drop_blanks r | _ => s end.
+Fixpoint span (f : N -> bool) (s : str) : str * str :=
+  match s with
+  | c :: r => if f c then let '(a, b) := span f r in (c :: a, b) else ([], s)
+  | [] => ([], [])
+  end.
+Definition plain_param (t : str) : bool :=
+  let '(k, r) := span alnum t in
+  match k, r with
+  | _ :: _, 61 :: v => (match v with [60; 62] => true | _ :: _ => forallb alnum v | [] => false end)
+  | _, _ => false
+  end.
+Definition plain_mail_arg (arg : str) : bool :=
+  if str_eqb (upper (firstn 5 arg)) [70;82;79;77;58] then
+    match drop_blanks (skipn 5 arg) with
+    | 60 :: r =>
+        let '(l, r1) := span plain_local r in
+        let after_addr :=
+          match l, r1 with
+          | [], 62 :: r2 => Some r2                                   (* <> *)
+          | _ :: _, 64 :: r2 => let '(d, r3) := span plain_dom r2 in
+                                match d, r3 with _ :: _, 62 :: r4 => Some r4 | _, _ => None end
+          | _, _ => None
+          end in
+        match after_addr with
+        | Some [] => true
+        | Some (32 :: ps) => forallb plain_param (split_on 32 ps)
+        | _ => false
+        end
+    | _ => false
+    end
+  else false.
+Definition plain_mail_ok (arg : str) (f : mailfacts) : bool :=
+  if plain_mail_arg arg then mf_match f && (negb (mf_has_params f) || mf_params_ok f) else true.
